@@ -35,7 +35,7 @@ def children(node):
     if "args" in node:
         return list(node["args"])
     if "arg" in node:
-        return [node["arg"]] + list(node.get("head", [])) + list(node.get("tail", []))
+        return [node["arg"]] + ([node["other"]] if "other" in node else []) + list(node.get("head", [])) + list(node.get("tail", []))
     return []
 
 
@@ -63,10 +63,15 @@ def dense(node):
     if k == "Gram":  # A^T A, A^H A, A A^T, A A^H  (the factor appears twice)
         r = dense(node["arg"])
         f = node["form"]
-        X = r.M.T if "T" in f else r.M.conj().T
-        M = X @ r.M if f in ("TA", "HA") else r.M @ X
-        Bd = r.B.T @ r.B if f in ("TA", "HA") else r.B @ r.B.T
-        dt, eps = r.dtype, r.eps
+        # ("other": the second member of the pair is an operator of the same kind over *other* data - E^T F, not a Gram pair at all)
+        r2 = dense(node["other"]) if "other" in node else r
+        if f in ("TA", "HA"):
+            X = r.M.T if "T" in f else r.M.conj().T
+            M, Bd = X @ r2.M, r.B.T @ r2.B
+        else:
+            X = r2.M.T if "T" in f else r2.M.conj().T
+            M, Bd = r.M @ X, r.B @ r2.B.T
+        dt, eps = np.result_type(r.dtype, r2.dtype), max(r.eps, r2.eps)
         for c in reversed(node.get("head", [])):
             h = dense(c)
             M, Bd, dt, eps = h.M @ M, h.B @ Bd, np.result_type(dt, h.dtype), max(eps, h.eps)
